@@ -136,7 +136,7 @@ def run_conditions(rec, module, conds, default_timeout=60, twins=True, procs=Non
         if twins and kind in ("confirmed", "noprecond"):
             o2, s2 = _crosshair("%s.%s__reach" % (tname, c["fn"]), min(to, 60), extra_path=tdir)
             k2, d2 = _classify(o2)
-            tw = (k2 == "error" and "false when calling" in d2, k2 + " " + d2[:120])
+            tw = (True if (k2 == "error" and "false when calling" in d2) else (False if k2 == "confirmed" else None), k2 + " " + d2[:120])
         return c, kind, detail, secs, tw
 
     with ThreadPoolExecutor(max_workers=procs) as ex:
@@ -146,12 +146,12 @@ def run_conditions(rec, module, conds, default_timeout=60, twins=True, procs=Non
         structure = c.get("structure", module)
         rec.query({"confirmed": "unsat", "error": "sat"}.get(kind, "unknown"), secs)
         if kind == "confirmed":
-            if tw is not None:
+            if tw is not None and tw[0] is not None:
                 rec.vacuity_witness("%s.%s" % (module, c["fn"]), tw[0], tw[1])
             if tw is None or tw[0]:
                 rec.oblig(name, HOLDS, "CrossHair: Confirmed over all paths (real-float model)", secs, structure)
             else:
-                rec.oblig(name, INCONCLUSIVE, "confirmed but the reachability twin was not refuted: " + tw[1], secs, structure)
+                rec.oblig(name, INCONCLUSIVE, "confirmed, but no reachability witness was obtained for the twin (%s)" % tw[1], secs, structure)
         elif kind == "error":
             m = _CALL.search(detail)
             if not m:
